@@ -444,6 +444,15 @@ def validate_rows(module, cfg, trace_file, *, workers=8, timeout=900, env=None, 
         raise MachineryError("%s: trace validation timed out" % module)
     if res.error and not res.violated:
         raise MachineryError("%s: TLC error during trace validation: %s\n%s" % (module, res.error, res.output[-3000:]))
+    # vacuity guard: every ndjson line must have become an initial state of the trace specification
+    try:
+        nrows = sum(1 for ln in open(trace_file) if ln.strip())
+    except OSError:
+        nrows = None
+    mi = re.search(r"Finished computing initial states: (\d+) distinct state", res.output)
+    if nrows is not None and mi and not res.violated and int(mi.group(1)) != nrows:
+        raise MachineryError("%s: %d trace lines but %s initial states - some traces were not checked at all" % (
+            module, nrows, mi.group(1)))
     bad, names = _bad_indices(res.output, var)
     if res.violated and not bad:
         raise MachineryError("%s: violation reported but no index parsed:\n%s" % (module, res.output[-3000:]))
